@@ -114,7 +114,8 @@ def check(case):
             # again be scored by the model of its fold, i.e. the scores must be those of the first run
             k = case["folds"]
             order = list(reversed(range(k))) if case["rng"] % 3 == 0 else [(i + 1) % k for i in range(k)]
-            rescored = brewlib.rescore(case, tmp, r["models"], order)
+            # fold membership is a function of the data alone: another seed in the second call must not matter
+            rescored = brewlib.rescore(case, tmp, r["models"], order, rng_shift=0 if case["rng"] % 3 == 0 else 12345)
     dfs, metas, models, scores, events = r["dfs"], r["metas"], r["models"], r["scores"], r["events"]
     folds = case["folds"]
     nfiles = len(dfs)
